@@ -77,7 +77,8 @@ def gen_l4(rng, dv, proto):
 
 
 def gen_l3(rng, dv, v6):
-    proto = rng.choice([6, 17, 58 if v6 else 1])
+    # (ICMP and ICMPv6 are told apart by the protocol NUMBER alone: 1 under IPv6 and 58 under IPv4 are decoded like the usual pairings)
+    proto = rng.choice([6, 6, 17, 17, 58 if v6 else 1, 58 if v6 else 1, 1 if v6 else 58])
     l4, e4 = gen_l4(rng, dv, proto)
     if not v6:
         tos, tlen, ident, ttl, csum = dv.val(1), dv.val(2), dv.val(2), dv.val(1), dv.val(2)
